@@ -185,7 +185,7 @@ pub fn run(tier: Tier, rep: &mut Report) -> (String, String) {
     let th = n_threads(tier);
     let mut bounds = String::new();
     // (a) pattern families
-    let (hl, nl) = tier.pick((6, 3), (8, 4), (3, 2));
+    let (hl, nl) = tier.pick((6, 3), (8, 4), (2, 1));
     let hs = strings_over(&["a", "b", "ñ"], hl);
     let ns = strings_over(&["a", "b", "ñ"], nl);
     bounds += &format!("strings over [a,b,ñ]: inputs <= {hl} atoms ({}), patterns <= {nl} atoms ({}); ", hs.len(), ns.len());
@@ -195,7 +195,7 @@ pub fn run(tier: Tier, rep: &mut Report) -> (String, String) {
         }
         r.sample(|| format!("input {h:?} x all {} patterns", ns.len()));
     }));
-    let (hl, nl) = tier.pick((6, 3), (8, 4), (3, 2));
+    let (hl, nl) = tier.pick((6, 3), (8, 4), (2, 1));
     let alpha: &[u8] = &[0x61, 0x62, 0xFF];
     let hb = bytes_over(alpha, hl);
     let nb = bytes_over(alpha, nl);
@@ -212,14 +212,14 @@ pub fn run(tier: Tier, rep: &mut Report) -> (String, String) {
     rep.merge(par_each(&ws2, th, |h, r| one_ws(r, h)));
     // ... and longer strings over every ASCII control/whitespace class
     let wsa: &[u8] = &[b'\t', b'\n', 0x0B, 0x0C, b'\r', 0x1C, 0x1F, b' ', 0x7F, 0x85, 0xA0, b'a'];
-    let wl = tier.pick(4, 6, 2);
+    let wl = tier.pick(4, 6, 1);
     let wsn = bytes_over(wsa, wl);
     bounds += &format!("byte strings <= {wl} over {wsa:02x?} ({}); ", wsn.len());
     rep.merge(par_each(&wsn, th, |h, r| {
         one_ws(r, h);
         r.sample(|| format!("whitespace input {}", show(h)));
     }));
-    let wss = strings_over(&[" ", "\t", "\n", "\r", "\x0B", "\x0C", "\u{85}", "\u{A0}", "\u{2003}", "a", "ñ"], tier.pick(4, 5, 2));
+    let wss = strings_over(&[" ", "\t", "\n", "\r", "\x0B", "\x0C", "\u{85}", "\u{A0}", "\u{2003}", "a", "ñ"], tier.pick(4, 5, 1));
     bounds += &format!("strings over [space,\\t,\\n,\\r,\\x0B,\\x0C,U+0085,U+00A0,U+2003,a,ñ] ({}); ", wss.len());
     rep.merge(par_each(&wss, th, |h, r| one_ws(r, h.as_bytes())));
     rep.traces = rep.transitions;
